@@ -12,6 +12,7 @@ import (
 	"go/parser"
 	"go/printer"
 	"go/token"
+	"path/filepath"
 	"regexp"
 	"strconv"
 	"strings"
@@ -557,4 +558,174 @@ func (g *goFile) nodeIR(n lay.NodeRec) (string, error) {
 		cs = append(cs, pnum(g.consts[c]))
 	}
 	return fmt.Sprintf("mkNI %s %s %s %s %s [%s]", tid, nw, nr, nl, which, strings.Join(cs, "; ")), nil
+}
+
+
+// ---------------------------------------------------------------- qualified names
+
+// resolver maps an import path to the parsed emitted (or committed) package.
+type resolver struct {
+	byImport map[string]*goFile
+	repo     string
+	cache    map[string]*goFile
+}
+
+const repoImport = "capnproto.org/go/capnp/v3"
+
+// pkgAt returns the X_TypeID tables of the package at an import path: an emitted file of the
+// same request, or a committed generated package of the repository.
+func (r *resolver) pkgAt(path string) *goFile {
+	if g, ok := r.byImport[path]; ok {
+		return g
+	}
+	if g, ok := r.cache[path]; ok {
+		return g
+	}
+	var g *goFile
+	if strings.HasPrefix(path, repoImport) {
+		files, _ := filepath.Glob(filepath.Join(r.repo, strings.TrimPrefix(path, repoImport), "*.capnp.go"))
+		for _, f := range files {
+			pg, err := parseGo(f)
+			if err != nil {
+				continue
+			}
+			if g == nil {
+				g = pg
+			} else {
+				for k, v := range pg.typeIDs {
+					g.typeIDs[k] = v
+				}
+			}
+		}
+	}
+	r.cache[path] = g
+	return g
+}
+
+func (g *goFile) importPath(qual string) (string, bool) {
+	for _, im := range g.file.Imports {
+		p := strings.Trim(im.Path.Value, "\"")
+		name := ""
+		if im.Name != nil {
+			name = im.Name.Name
+		} else if i := strings.LastIndex(p, "/"); i >= 0 {
+			name = p[i+1:]
+		} else {
+			name = p
+		}
+		if name == qual {
+			return p, true
+		}
+	}
+	return "", false
+}
+
+// resolve maps a (possibly qualified) Go name of a generated type / constructor to the node id
+// of its X_TypeID constant. 0: the name does not resolve (no such import / no such type);
+// ok=false: the package is outside the corpus and the repository (nothing to compare with).
+func (g *goFile) resolve(expr string, r *resolver) (uint64, bool) {
+	qual, name := "", expr
+	if i := strings.Index(expr, "."); i >= 0 {
+		qual, name = expr[:i], expr[i+1:]
+	}
+	name = strings.TrimSuffix(strings.TrimSuffix(name, "_Future"), "_List")
+	target := g
+	if qual != "" {
+		p, ok := g.importPath(qual)
+		if !ok {
+			return 0, true // qualifier that is not imported: does not compile, resolves to nothing
+		}
+		target = r.pkgAt(p)
+		if target == nil {
+			// an emitted package of this request must exist; anything else is outside the corpus
+			return 0, strings.HasPrefix(p, "c15gen/")
+		}
+	}
+	for id, n := range target.typeIDs {
+		if n == name {
+			return id, true
+		}
+	}
+	return 0, true
+}
+
+func coqRef(want uint64, got []uint64) string {
+	var gs []string
+	for _, x := range got {
+		gs = append(gs, strconv.FormatUint(x, 10))
+	}
+	return fmt.Sprintf("(%d, [%s])", want, strings.Join(gs, "; "))
+}
+
+// fieldTypeRefs: the generated type names a struct / list / enum / interface field's accessors use.
+func (g *goFile) fieldTypeRefs(f lay.FieldRec, r *resolver) (string, error) {
+	ms := g.methods[f.Type]
+	var exprs []string
+	if d := ms[f.Name]; d != nil && d.Type.Results != nil && len(d.Type.Results.List) > 0 {
+		exprs = append(exprs, g.typeText(d.Type.Results.List[0].Type))
+	}
+	if d := ms["Set"+f.Name]; d != nil && d.Type.Params != nil && len(d.Type.Params.List) == 1 {
+		exprs = append(exprs, g.typeText(d.Type.Params.List[0].Type))
+	}
+	if d := ms["New"+f.Name]; d != nil && (f.Kind == "struct" || f.Kind == "list") {
+		if d.Type.Results != nil && len(d.Type.Results.List) > 0 {
+			exprs = append(exprs, g.typeText(d.Type.Results.List[0].Type))
+		}
+		found := false
+		for _, st := range g.stmts(d) {
+			if m := rx(`^(?:ss|l),err:=(` + qident + `)\(s\.Struct\.Segment\(\)`).FindStringSubmatch(st); m != nil {
+				q := m[1]
+				if i := strings.LastIndex(q, "."); i >= 0 {
+					q = q[:i+1] + strings.TrimPrefix(q[i+1:], "New")
+				} else {
+					q = strings.TrimPrefix(q, "New")
+				}
+				exprs = append(exprs, q)
+				found = true
+			}
+		}
+		if !found {
+			return "", fnErr{f.Type + ".New" + f.Name, "constructor call not found"}
+		}
+	}
+	var got []uint64
+	for _, e := range exprs {
+		id, ok := g.resolve(e, r)
+		if !ok {
+			return "", nil // package outside the corpus
+		}
+		got = append(got, id)
+	}
+	if len(got) == 0 {
+		return "", fnErr{f.Type + "." + f.Name, "no accessor names a generated type"}
+	}
+	return coqRef(f.TypeID, got), nil
+}
+
+// ifaceTypeRefs: parameter and result struct types in the client methods' signatures.
+func (g *goFile) ifaceTypeRefs(ifc lay.IfaceRec, r *resolver) ([]string, error) {
+	var out []string
+	for _, m := range ifc.Methods {
+		d := g.methods[ifc.Type][m.Name]
+		if d == nil {
+			return nil, fnErr{ifc.Type + "." + m.Name, "client method not emitted"}
+		}
+		bad := fnErr{ifc.Type + "." + m.Name, "unrecognised client method signature"}
+		if d.Type.Params == nil || len(d.Type.Params.List) != 2 || d.Type.Results == nil || len(d.Type.Results.List) != 2 {
+			return nil, bad
+		}
+		ft, ok := d.Type.Params.List[1].Type.(*ast.FuncType)
+		if !ok || ft.Params == nil || len(ft.Params.List) != 1 {
+			return nil, bad
+		}
+		pid, ok1 := g.resolve(g.typeText(ft.Params.List[0].Type), r)
+		rid, ok2 := g.resolve(g.typeText(d.Type.Results.List[0].Type), r)
+		if ok1 {
+			out = append(out, coqRef(m.ParamID, []uint64{pid}))
+		}
+		if ok2 {
+			out = append(out, coqRef(m.ResultID, []uint64{rid}))
+		}
+	}
+	return out, nil
 }
